@@ -36,7 +36,7 @@ REQUIRED = {"table.predicates": 20, "table.partition": 14, "table.inner_outer": 
             "history.reset_leaves_nothing": {"quick": 100, "thorough": 4000}}
 REQUIRED_SEEN = {"feature_status": ["passed", "failed", "error", "skipped", "untested", "hook_error"],
                  "scenario_status": ["passed", "failed", "error", "skipped", "untested", "hook_error"],
-                 "junit_mode": ["on", "off"], "autoretry_patch_style": ["rows", "as_listed"], "raising_tag_hook": ["tag_on_one_level", "tag_on_several_levels"]}
+                 "junit_mode": ["on", "off"], "raising_step_hook": ["after_step_of_a_failing_step"], "autoretry_patch_style": ["rows", "as_listed"], "raising_tag_hook": ["tag_on_one_level", "tag_on_several_levels"]}
 EXHAUSTIVE = True
 EXHAUSTIVE_SCOPE = "all members of Status; all child-status tuples up to the length bound per container kind"
 NSHARDS = {"quick": 16, "thorough": 16}
@@ -288,6 +288,13 @@ def real_runs(mon, lab, rng, n, tier):
                 tag_hooks = [j for j, h in enumerate(obs0.hooks) if h[0].endswith("_tag")]
                 if tag_hooks and rng.random() < 0.4:
                     k = rng.choice(tag_hooks)       # tag hooks: the same tag may sit on several nesting levels
+                else:
+                    # the after_step hook of a step that FAILS on its own (the usual screenshot-on-failure hook, raising)
+                    bad_after = [j for j, h in enumerate(obs0.hooks) if h[0] == "after_step" and isinstance(h[1], tuple)
+                                 and case["program"]["outcomes"].get(h[1][1]) in ("fail", "error")]
+                    if bad_after and rng.random() < 0.4:
+                        k = rng.choice(bad_after)
+                        mon.seen("raising_step_hook", "after_step_of_a_failing_step")
                 kw["hook_fault"] = {"k": k, "exc": rng.choice(["Exception", "AssertionError"])}
                 case = dict(case, hook_fault=kw["hook_fault"])
                 ref["case"] = case
@@ -341,6 +348,15 @@ def real_runs(mon, lab, rng, n, tier):
         before = mon.counters.get("rollup.containers", 0)
         RB.check_rollup_live(mon, lab, obs, case, cleanup_failed=cleanup_failed, hook_failed_names=set(obs.fault_owners))
         for (kk, hname, ename, tag), owner in zip(obs.faults_fired, obs.fault_owners):
+            if hname.endswith("_step") and isinstance(ename, tuple) and ename[0] in obs.step_names:
+                # a raising before_step / after_step hook: THAT step is hook_error -- whatever its own function did -- and its
+                # scenario has an error-class status inside
+                names_ = obs.step_names[ename[0]]
+                if names_.count(ename[1]) == 1:
+                    st_ = obs.step_status[ename[0]][names_.index(ename[1])]
+                    sc_ = obs.elem_status.get(ename[0])
+                    mon.check("rollup.step_whose_hook_raised_is_hook_error", st_ == "hook_error" and sc_ == "error",
+                              lambda: RB.witness(case, hook=hname, step=list(ename), step_status=st_, scenario_status=sc_))
             if hname.endswith("_tag") and owner is not None:
                 levels = sum(1 for (h2, e2, t2) in obs.hooks if h2 == "before_tag" and t2 == tag)
                 mon.seen("raising_tag_hook", "tag_on_one_level" if levels <= 1 else "tag_on_several_levels")
